@@ -41,6 +41,17 @@ fn matcher_domains(id: &str, thorough: bool) -> Vec<Domain> {
     let mixed6: Vec<char> = vec!['a', 'A', 'ä', 'ς', 'σ', ' '];
     let full16 = cat(ASCII7, NONASCII9);
     let fold_ascii: Vec<char> = vec!['s', 'k', 'ſ', '\u{212A}', 'S', '-'];
+    // one non-ASCII representative per behavioural signature (computed from the library's own
+    // tables over all scalar values) next to a few ASCII companions the normal forms map onto
+    let mut sig = dom::signature_alphabet();
+    // drop characters whose composite normal form is not a fixed point (not a legal needle)
+    sig.retain(|&c| {
+        Cfg::all().iter().all(|&cf| {
+            let t = refm::norm(c, cf);
+            refm::norm(t, cf) == t
+        })
+    });
+    let sig_alpha = cat(&['a', 'i', 'A', ' '], &sig);
     match (id, thorough) {
         ("C04", false) => vec![
             Domain::new("ascii5", ASCII5, 6, 3, cfgs.clone()),
@@ -57,13 +68,15 @@ fn matcher_domains(id: &str, thorough: bool) -> Vec<Domain> {
             Domain::new("ascii7", ASCII7, 5, 3, cfgs.clone()),
             Domain::new("mixed8", &mixed8, 4, 3, cfgs.clone()),
             Domain::new("fold-to-ascii", &fold_ascii, 4, 2, cfgs.clone()),
-            Domain::new("full16", &full16, 3, 2, cfgs),
+            Domain::new("full16", &full16, 3, 2, cfgs.clone()),
+            Domain::new("signature-classes", &sig_alpha, 3, 2, cfgs),
         ],
         (_, true) => vec![
             Domain::new("ascii7", ASCII7, 7, 4, cfgs.clone()),
             Domain::new("mixed8", &mixed8, 6, 4, cfgs.clone()),
             Domain::new("fold-to-ascii", &fold_ascii, 6, 3, cfgs.clone()),
-            Domain::new("full16", &full16, 5, 3, cfgs),
+            Domain::new("full16", &full16, 5, 3, cfgs.clone()),
+            Domain::new("signature-classes", &sig_alpha, 4, 2, cfgs),
         ],
     }
 }
